@@ -10,8 +10,10 @@ counters only:
              the unchanged tree with >= 10x head-room (ENVELOPES below; never computed from the tree under test)
   growth     no counter shows three consecutive growth ratios w(n+1)/w(n) >= 1.8 at n >= 8 (a polynomial of
              degree <= 4 has ratio <= (9/8)^4 = 1.6 there and falling; exponential growth keeps its base)
-  constants  no constant folding is entered whose result size, predicted from the operand sizes alone, exceeds
-             10^6 bits ("unbounded constant folding")
+  constants  no constant folding produces (or is still computing when the child is stopped, or dies of
+             MemoryError computing) a value of more than 10^6 bits ("unbounded constant folding"); the size is
+             predicted from the operand sizes before the evaluation so that the witness exists even if the child
+             never comes back
   crash      the run is not killed by a signal and does not die of RecursionError / MemoryError
   watchdog   a child that reaches the wall-clock watchdog while its counters (dumped every second) are still
              growing is a non-terminating analysis; a watchdog without counter evidence is inconclusive
@@ -37,7 +39,7 @@ DECIDING = (
     "p3_space_len", "sfg_nodes", "sfg_edges", "sfg_add_edge_calls", "call_paths", "call_resolutions_p3",
     "taint_pops", "taint_propagations", "taint_enqueue_calls",
     "strict_eval_calls", "strict_eval_bytes", "strict_eval_max_bytes",
-    "strict_eval_max_result_bits", "strict_eval_max_predicted_bits",
+    "strict_eval_max_result_bits",
     "p2_frames", "p2_methods", "stmt_transfers_p2", "call_resolutions_p2", "prep_files",
 )
 # counters that must be reached for the run to count as observed at all
@@ -50,6 +52,9 @@ MAX_FOLD_BITS = 10 ** 6
 GROWTH_RATIO = 1.8
 GROWTH_MIN_N = 8
 GROWTH_MIN_VALUE = 40       # ratios of tiny counts (1, 2, 4 ...) are not evidence of anything
+# sizes of ONE folded constant are bounded absolutely (MAX_FOLD_BITS / envelope), a cap makes them saturate: the ratio
+# test is for work, i.e. for sums
+NO_GROWTH_TEST = ("strict_eval_max_bytes", "strict_eval_max_result_bits")
 
 ENVELOPES = {}              # filled from the committed table at the end of this file
 
@@ -91,6 +96,12 @@ def run_case(case):
     try:
         resource.setrlimit(resource.RLIMIT_CORE, (0, 0))
     except (ValueError, OSError):
+        pass
+    try:                                   # one analysis per core: no per-child thread pools (harness resource choice)
+        import pyarrow
+        pyarrow.set_cpu_count(1)
+        pyarrow.set_io_thread_count(1)
+    except Exception:
         pass
     wc = workcount.install(dump_path=case["dump"], interval=case.get("interval", 1.0), limits=case.get("limits"))
     extra = ["--enable-p2"] if case["p2"] else []
@@ -217,7 +228,11 @@ class Judge:
             if v["outcome"] == "exception":
                 d = v["detail"]
                 chk.count("runs ended by an exception", 1)
-                self.fail(fam, "run", f"crash:{d['type']}@{d['where']}", p2,
+                sfam = fam
+                if (d["type"] == "ValueError" and "integer string conversion" in d["msg"]
+                        and cnt.get("strict_eval_max_result_bits", 0) > 14000):
+                    sfam = "constant_folding"      # a folded constant too large for int -> str
+                self.fail(sfam, "run", f"crash:{d['type']}@{d['where']}", p2,
                           f"{fam}(n={n}, p2={p2}): pipeline died with {d['type']} in {d['where']}: {d['msg'][:120]}",
                           case, {"traceback": d["traceback"][-1500:]})
             elif v["outcome"] == "exit":
@@ -225,20 +240,24 @@ class Judge:
                 self.fail(fam, "run", f"crash:SystemExit@{self.exit_reason(r)}", p2,
                           f"{fam}(n={n}, p2={p2}): pipeline quit with SystemExit({v['detail']}): {self.exit_line(r)}",
                           case, {"log_tail": r.log_text(600)})
-            # constants
+            # constants: what the evaluation actually did
+            fold_failed = False
             for e in v["evals"]:
-                if e["predicted_bits"] > MAX_FOLD_BITS:
-                    self.fail(fam, "strict_eval_max_predicted_bits", "envelope", p2,
-                              f"{fam}(n={n}): unbounded constant folding: lian evaluated `{e['text']}` whose result has "
-                              f"~{e['predicted_bits']:.3g} bits (limit {MAX_FOLD_BITS}); evaluated={e.get('evaluated')} "
-                              f"raised={e.get('raised')} in {e.get('wall_s')} s", case, {"fold": e})
+                produced = e.get("evaluated") and e.get("result_bits", 0) > MAX_FOLD_BITS
+                blew = e.get("raised") in ("MemoryError", "OverflowError") and e["predicted_bits"] > MAX_FOLD_BITS
+                if produced or blew:
+                    fold_failed = True
+                    self.fail(f"constant_folding[{e['op']}]", "strict_eval_max_result_bits", "envelope", p2,
+                              f"{fam}(n={n}): unbounded constant folding: lian evaluated `{e['text']}` "
+                              f"({e['predicted_bits']:.3g} bits predicted from the operands, limit {MAX_FOLD_BITS}): "
+                              f"result {e.get('result_bits')} bits, raised={e.get('raised')}, {e.get('wall_s')} s",
+                              case, {"fold": e})
                     break
             # envelope
             for k in DECIDING:
                 lim = envelope_limit(fam, k, n)
                 if lim is not None and cnt.get(k, 0) > lim:
-                    if k == "strict_eval_max_predicted_bits" and any(f[0] == fam and f[1] == k and f[5]["n"] == n
-                                                                   and f[5]["p2"] == p2 for f in self.fails):
+                    if k == "strict_eval_max_result_bits" and fold_failed:
                         continue
                     self.fail(fam, k, "envelope", p2,
                               f"{fam}(n={n}, p2={p2}): {k} = {cnt.get(k, 0)} exceeds its polynomial envelope {lim}",
@@ -247,7 +266,7 @@ class Judge:
         # ---- the child did not deliver a result --------------------------------------------------------
         last = series[-1] if series else {}
         note = last.get("note") if isinstance(last.get("note"), dict) else None
-        if r.status in ("lost", "exit") and note and note.get("abort") == "envelope":
+        if r.status in ("abort", "lost") and note and note.get("abort") == "envelope":
             chk.count("runs stopped by the in-child envelope", 1)
             chk.nontrivial_case((fam, n, p2))
             self.fail(fam, note["counter"], "envelope", p2,
@@ -266,7 +285,7 @@ class Judge:
             chk.count("runs that reached the watchdog", 1)
             pend = last.get("in_strict_eval")
             if pend:
-                self.fail(fam, "strict_eval_max_predicted_bits", "watchdog", p2,
+                self.fail(f"constant_folding[{pend['op']}]", "strict_eval_max_result_bits", "watchdog", p2,
                           f"{fam}(n={n}): unbounded constant folding: still inside strict_eval(`{pend['text']}`), predicted "
                           f"result {pend['predicted_bits']:.3g} bits, when the {case['watchdog']:.0f} s watchdog fired",
                           case, {"fold": pend, "last_snapshot_t": last.get("t")})
@@ -315,6 +334,8 @@ class Judge:
                 continue
             ns = sorted(rows)
             for k in DECIDING:
+                if k in NO_GROWTH_TEST:
+                    continue
                 run = []
                 for a, b in zip(ns, ns[1:]):
                     if b != a + 1 or a < GROWTH_MIN_N:
@@ -372,6 +393,8 @@ def plan(tier, only=None):
         for n in ns:
             for p2 in (False, True):
                 cases.append((name, n, p2))
+        for n in fam.big:
+            cases.append((name, n, False))
     return cases
 
 
@@ -379,23 +402,72 @@ def run_all(chk, judge, cases, variant, workers=None):
     root = os.path.join(common.scratch(), "c13")
     os.makedirs(root, exist_ok=True)
     items = [make_case(root, f, n, p2, variant, chk.tier) for f, n, p2 in cases]
-    # the long ones first
+    # the potentially long ones first
     items.sort(key=lambda c: (not gen_adv.FAMILIES[c["family"]].hostile, -c["n"]))
-    maxwd = max([c["watchdog"] for c in items] or [60.0])
-    # forkpool has one timeout for all jobs: give every child its own watchdog through an alarm-free check here
-    for r in run_jobs_with_own_watchdog(items, workers):
+    for r in pool(items, workers):
         judge.result(r)
 
 
-def run_jobs_with_own_watchdog(items, workers=None):
-    """forkpool.run_jobs has one timeout for all jobs; group the jobs by watchdog and run the groups in turn
-    (two groups: hostile-constant children with a short watchdog, everything else)."""
-    groups = {}
-    for it in items:
-        groups.setdefault(it["watchdog"], []).append(it)
-    for wd in sorted(groups):
-        for r in forkpool.run_jobs(run_case, groups[wd], workers=workers, timeout=wd, tag="c13"):
-            yield r
+def pool(items, workers=None):
+    """forkpool.run_jobs with a watchdog per job (item['watchdog']) and the child's exit status kept: same child
+    protocol (forkpool._child), every killed child is reaped."""
+    import pickle
+    import signal
+    workers = workers or min(16, os.cpu_count() or 4)
+    root = os.path.join(common.scratch(), f"pool_c13_{os.getpid()}_{int(time.time() * 1000) % 100000}")
+    os.makedirs(root, exist_ok=True)
+    pending = list(enumerate(items))
+    pending.reverse()
+    running = {}
+    while pending or running:
+        while pending and len(running) < workers:
+            idx, item = pending.pop()
+            out, log = os.path.join(root, f"{idx}.pkl"), os.path.join(root, f"{idx}.log")
+            sys.stdout.flush(); sys.stderr.flush()
+            pid = os.fork()
+            if pid == 0:
+                forkpool._child(run_case, item, out, log)
+            running[pid] = (item, out, log, time.time())
+        reaped = False
+        for pid in list(running):
+            item, out, log, t0 = running[pid]
+            try:
+                rpid, st = os.waitpid(pid, os.WNOHANG)
+            except ChildProcessError:
+                rpid, st = pid, 0
+            if rpid == 0:
+                if time.time() - t0 > item["watchdog"]:
+                    try:
+                        os.kill(pid, signal.SIGKILL)
+                    except ProcessLookupError:
+                        pass
+                    try:
+                        os.waitpid(pid, 0)
+                    except ChildProcessError:
+                        pass
+                    del running[pid]
+                    reaped = True
+                    yield forkpool.JobResult(item, "timeout", None, log, time.time() - t0)
+                continue
+            del running[pid]
+            reaped = True
+            wall = time.time() - t0
+            if os.WIFSIGNALED(st):
+                yield forkpool.JobResult(item, "signal", os.WTERMSIG(st), log, wall)
+                continue
+            if os.WIFEXITED(st) and os.WEXITSTATUS(st) == workcount.ABORT_CODE:
+                yield forkpool.JobResult(item, "abort", None, log, wall)
+                continue
+            try:
+                with open(out, "rb") as f:
+                    status, value = pickle.load(f)
+                os.unlink(out)
+            except Exception:
+                yield forkpool.JobResult(item, "lost", None, log, wall)
+                continue
+            yield forkpool.JobResult(item, status, value, log, wall)
+        if not reaped:
+            time.sleep(0.01)
 
 
 def replay(chk, path):
@@ -451,7 +523,7 @@ def main():
                                              for f, v in sorted(judge.max_ratio.items())}
     chk.extra["runs"] = judge.runs
     if os.environ.get("VERIF_C13_CALIBRATE"):
-        calibrate(judge, os.environ["VERIF_C13_CALIBRATE"])
+        dump_raw(judge, chk, os.environ["VERIF_C13_CALIBRATE"])
     for fam in ("chain_k2", "mutual_ring", "hostile_pow_tower"):
         if fam in gen_adv.FAMILIES:
             p = gen_adv.FAMILIES[fam].make(3, variant)
@@ -466,50 +538,66 @@ def main():
 
 
 # =============================================================================================================
-# calibration (developer aid; the result is pasted below as a committed constant)
-def calibrate(judge, out_path):
-    import math
-    env = {}
-    fams = sorted({f for f, _ in judge.table})
-    for fam in fams:
-        env[fam] = {}
-        for k in DECIDING:
-            pts = []
-            for p2 in (False, True):
-                for n, cnt in judge.table.get((fam, p2), {}).items():
-                    pts.append((n, cnt.get(k, 0)))
-            if not pts:
-                continue
-            mx = max(v for _, v in pts)
-            # smallest degree whose normalised sequence is not increasing towards the large n
-            best = None
-            for d in (0, 1, 2, 3, 4):
-                norm = [(n, v / (n + 1) ** d) for n, v in pts]
-                a = max(x for _, x in norm)
-                big = [x for n, x in norm if n >= max(p[0] for p in pts) - 1]
-                if d == 4 or max(big) <= 0.75 * a or mx == 0:
-                    best = (d, a)
-                    break
-            d, a = best
-            d = max(d, 1)
-            a = max(v / (n + 1) ** d for n, v in pts)
-            env[fam][k] = [round(max(10.0 * a, 10.0) + 1, 1), d]
+# calibration (developer aid, never used by a registered command):
+#   VERIF_C13_CALIBRATE=<dir> ./check C13 --tier thorough --seed S      dumps the raw counter tables into <dir>
+#   /venv/bin/python -m checks.c13 merge <dir> <out.py>                 fits a*(n+1)^d per (family, counter) over all
+#                                                                       dumps, a = 10 x the largest normalised value
+# The result is pasted into ENVELOPES below as a committed constant.
+def dump_raw(judge, chk, out_dir):
+    os.makedirs(out_dir, exist_ok=True)
+    raw = {}
+    for (fam, p2), rows in judge.table.items():
+        raw.setdefault(fam, {})[str(int(p2))] = {str(n): c for n, c in rows.items()}
+    with open(os.path.join(out_dir, f"raw_{chk.tier}_{chk.seed}.json"), "w") as f:
+        json.dump(raw, f)
+
+
+def fit(points):
+    """points: [(n, value)] -> (a, d): smallest d in 1..4 whose normalised values do not keep rising with n."""
+    pts = sorted(points)
+    nmax = max(n for n, _ in pts)
+    top = [p for p in pts if p[0] >= 0.7 * nmax] or pts
+    for d in (1, 2, 3, 4):
+        norm = [v / (n + 1) ** d for n, v in pts]
+        a = max(norm)
+        tnorm = [v / (n + 1) ** d for n, v in top]
+        rising = len(tnorm) >= 2 and tnorm[-1] > 1.15 * min(tnorm) and tnorm[-1] >= 0.8 * a
+        if not rising or d == 4:
+            return max(10.0 * a, 10.0), d
+
+
+def merge(in_dir, out_path):
+    pts = {}
+    for name in sorted(os.listdir(in_dir)):
+        if not (name.startswith("raw_") and name.endswith(".json")):
+            continue
+        with open(os.path.join(in_dir, name)) as f:
+            raw = json.load(f)
+        for fam, modes in raw.items():
+            for p2, rows in modes.items():
+                for n, cnt in rows.items():
+                    for k in DECIDING:
+                        pts.setdefault(fam, {}).setdefault(k, []).append((int(n), cnt.get(k, 0)))
     with open(out_path, "w") as f:
         f.write("ENVELOPES = {\n")
-        for fam in fams:
+        for fam in sorted(pts):
             f.write(f"    {fam!r}: {{\n")
-            items = list(env[fam].items())
             line = "        "
-            for k, (a, d) in items:
-                piece = f"{k!r}: ({a}, {d}), "
+            for k in DECIDING:
+                a, d = fit(pts[fam][k])
+                a = float(f"{a:.3g}") if a >= 1000 else round(a + 0.5, 0)
+                piece = f"{k!r}: ({a:g}, {d}), "
                 if len(line) + len(piece) > 118:
                     f.write(line.rstrip() + "\n")
                     line = "        "
                 line += piece
             f.write(line.rstrip() + "\n    },\n")
         f.write("}\n")
-    print("calibration written to", out_path)
+    print("envelopes written to", out_path)
 
 
 if __name__ == "__main__":
-    main()
+    if len(sys.argv) == 4 and sys.argv[1] == "merge":
+        merge(sys.argv[2], sys.argv[3])
+    else:
+        main()
